@@ -16,8 +16,8 @@ use std::time::Duration;
 
 pub use crate::dns_parser::verif_wire as wire;
 pub use crate::dns_parser::verif_wire::life;
+pub use crate::service_daemon::verif_daemon::names;
 pub use crate::service_info::verif_info as probe;
-
 
 /// One address of a simulated interface (same shape as one `getifaddrs` entry).
 #[derive(Clone, Debug, PartialEq, Eq)]
